@@ -215,21 +215,24 @@ def probe_threshold(rep, r, n):
 def probe_finder(rep, r, n):
     """SourceFinder(deblend=False) == detect_sources"""
     from photutils.segmentation import SourceFinder, detect_sources
-    for _ in range(n):
+    for k_ in range(n):
         ny, nx = gens.size(r, 3, 10), gens.size(r, 3, 10)
         data = gens.image(r, ny, nx, special=0.2, palette=0.7)
         thr = gens.dy(r, 2, 3)
         npix = r.choice([1, 2, 4])
+        if k_ % 2 == 1:
+            # (detection minimum, deblending minimum): the detection step prunes with the FIRST one
+            npix = [(4, 1), (1, 4), (2, 5), (5, 2), (3, 1)][(k_ // 2) % 5]
         conn = r.choice([4, 8])
         with warnings.catch_warnings():
             warnings.simplefilter('ignore')
             a = SourceFinder(npixels=npix, connectivity=conn, deblend=False, progress_bar=False)(data, thr)
-            b = detect_sources(data, thr, npix, connectivity=conn)
-        rep.case(('finder', data.tobytes(), thr, npix, conn), True, kind='SourceFinder')
+            b = detect_sources(data, thr, npix[0] if isinstance(npix, tuple) else npix, connectivity=conn)
+        rep.case(('finder', data.tobytes(), thr, npix, conn), True, kind='SourceFinder' + (':npixels-pair' if isinstance(npix, tuple) else ''))
         rep.probe_only += 1
         if (a is None) != (b is None) or (a is not None and not np.array_equal(a.data, b.data)):
             rep.violation('finder-ne-detect', 'SourceFinder(deblend=False) differs from detect_sources',
-                          {'data': data.tolist(), 'threshold': thr, 'npixels': npix, 'connectivity': conn})
+                          {'data': data.tolist(), 'threshold': thr, 'npixels': list(npix) if isinstance(npix, tuple) else npix, 'connectivity': conn})
 
 
 def replay(rep, data):
